@@ -250,7 +250,15 @@ def run_program(ck, rng, meshes, grids, prog, centred, lead, routes, stats, mode
             if kind in ("isel_grid", "subset"):
                 if kind == "isel_grid":
                     cnt = element_counts(a.uxgrid)[gdim]
-                    idx = rng.sample(range(cnt), rng.randrange(1, min(cnt, 4) + 1))     # unsorted on purpose
+                    u = rng.random()
+                    if u < 0.45 or gdim != "n_face":
+                        idx = rng.sample(range(cnt), rng.randrange(1, min(cnt, 4) + 1))     # unsorted on purpose
+                    elif u < 0.70:
+                        idx = rng.sample(range(cnt), cnt)                                   # a permutation of ALL faces
+                    elif u < 0.85:
+                        idx = rng.sample(range(cnt), rng.randrange(1, cnt + 1))             # any size, unsorted
+                    else:
+                        idx = [rng.randrange(cnt) for _ in range(cnt)]                      # full length, with repeats
                     r = a.isel(**{gdim: idx})
                     if gdim == "n_face":
                         # the subset keeps the caller's face order, so the values are plain positional indexing
